@@ -135,3 +135,147 @@ Proof.
     + intros (xid & Hin & Hc). apply (proj2 (proj2 (Hk xid Hin)) t Lt) in Hc. split; [exists xid; tauto|tauto].
     + intros [(xid & Hin & Hc) Hn]. exists xid. split; [exact Hin|]. apply (proj2 (proj2 (Hk xid Hin)) t Lt). tauto.
 Qed.
+
+(** * Intersection *)
+Lemma sorted_cu_suffix l1 l2 : sorted_cu (l1 ++ l2) -> sorted_cu l2.
+Proof.
+  intros [V S]. split; [apply Forall_app in V; tauto|eapply SS_suffix; exact S].
+Qed.
+
+Lemma sorted_cu_tail a l : sorted_cu (a :: l) -> sorted_cu l.
+Proof. apply (sorted_cu_suffix [a] l). Qed.
+
+(** a cell whose id lies below RangeMin xi is entirely before xi or contains it *)
+Lemma below_dichotomy d xi : valid d -> valid xi -> d < rmin xi -> rmax d < rmin xi \/ nested_in xi d.
+Proof.
+  intros Vd Vx Hlt. pose proof (valid_range _ Vd) as (_ & Rd & _). pose proof (valid_range _ Vx) as (_ & Rx & _).
+  destruct (laminar d xi Vd Vx) as [N|[N|[N|N]]]; unfold nested_in in *; [lia|right; exact N|left; exact N|lia].
+Qed.
+
+Lemma before_disjoint xi xs d t : sorted_cu (xi :: xs) -> rmax d < rmin xi -> covers d t -> ~ cov (xi :: xs) t.
+Proof.
+  intros [V S] Hlt Hd (c & Hin & Hc). inversion S as [|? ? _ F]; subst. inversion V as [|? ? Vx Vxs]; subst.
+  rewrite Forall_forall in F, Vxs. pose proof (valid_le _ Vx). unfold covers in *.
+  destruct Hin as [<-|Hin]; [lia|]. specialize (F c Hin). unfold before in F. lia.
+Qed.
+
+Lemma skip_scan_spec lim : forall l prev, sorted_cu (prev :: l) ->
+  exists dr, prev :: l = dr ++ fst (skip_scan lim prev l) :: snd (skip_scan lim prev l) /\
+    (forall d, In d dr -> rmax d < lim) /\
+    ((dr = [] /\ fst (skip_scan lim prev l) = prev) \/ (dr <> [] /\ fst (skip_scan lim prev l) < lim)).
+Proof.
+  induction l as [|h t IH]; intros prev Hs; cbn [skip_scan].
+  - exists []. cbn. split; [reflexivity|]. split; [intros ? []|left; auto].
+  - destruct (Z.leb_spec lim h) as [Hle|Hlt].
+    + exists []. cbn. split; [reflexivity|]. split; [intros ? []|left; auto].
+    + destruct (IH h (sorted_cu_tail _ _ Hs)) as (dr & E & Hd & Hp).
+      exists (prev :: dr). split; [cbn; f_equal; exact E|]. split.
+      * intros d [<-|Hin]; [|auto]. destruct Hs as [V S]. inversion S as [|? ? _ F]; subst. inversion V as [|? ? _ V']; subst.
+        inversion F as [|? ? B _]; subst. inversion V' as [|? ? Vh _]; subst. unfold before in B.
+        pose proof (valid_range _ Vh). lia.
+      * right. split; [discriminate|]. destruct Hp as [[_ ->]|[_ Hp]]; lia.
+Qed.
+
+Lemma skip_to_spec xi xs yj ys : sorted_cu (xi :: xs) -> sorted_cu (yj :: ys) ->
+  rmin yj < rmin xi -> rmax yj < xi ->
+  let Y' := skip_to xi (rmin xi) yj ys in
+  sorted_cu Y' /\ (length Y' < length (yj :: ys))%nat /\
+  forall t, (cov (xi :: xs) t /\ cov (yj :: ys) t <-> cov (xi :: xs) t /\ cov Y' t).
+Proof.
+  intros HX HY Hmin Hmax. cbv zeta. unfold skip_to.
+  destruct (skip_scan_spec (rmin xi) ys yj HY) as (dr & E & Hdr & Hp).
+  destruct (skip_scan (rmin xi) yj ys) as [p' l']. cbn [fst snd] in *.
+  assert (Vx : valid xi) by (destruct HX as [V _]; inversion V; assumption).
+  assert (Vy : valid yj) by (destruct HY as [V _]; inversion V; assumption).
+  pose proof (valid_range _ Vx) as (_ & Rx & _). pose proof (valid_range _ Vy) as (_ & Ry & _).
+  assert (Byj : rmax yj < rmin xi).
+  { destruct (laminar yj xi Vy Vx) as [N|[N|[N|N]]]; unfold nested_in in *; lia. }
+  assert (Vp : valid p').
+  { destruct HY as [V _]. rewrite E in V. apply Forall_app in V. destruct V as [_ V]. inversion V; assumption. }
+  assert (Dp : rmax p' < rmin xi \/ nested_in xi p').
+  { destruct Hp as [[_ ->]|[_ Hp]]; [left; exact Byj|apply below_dichotomy; assumption]. }
+  assert (Sp : sorted_cu (p' :: l')) by (apply (sorted_cu_suffix dr); rewrite <- E; exact HY).
+  assert (Hdrop : forall t, cov (xi :: xs) t -> ~ cov dr t).
+  { intros t Hc (d & Hin & Hd). eapply (before_disjoint xi xs d t HX); [apply Hdr; exact Hin|exact Hd|exact Hc]. }
+  assert (Elen : length (yj :: ys) = (length dr + S (length l'))%nat).
+  { rewrite E, app_length. reflexivity. }
+  destruct (Z.leb_spec xi (rmax p')) as [Hput|Hnot].
+  - (* put the previous cell back *)
+    assert (dr <> []).
+    { destruct Hp as [[_ ->]|[Hne _]]; [lia|exact Hne]. }
+    split; [exact Sp|]. split.
+    + destruct dr; [congruence|]. cbn in *. lia.
+    + intros t. rewrite E, cov_app. specialize (Hdrop t). tauto.
+  - assert (Bp : rmax p' < rmin xi).
+    { destruct Dp as [B|N]; [exact B|]. unfold nested_in in N. lia. }
+    split; [apply (sorted_cu_tail p'); exact Sp|]. split.
+    + cbn in *. lia.
+    + intros t. rewrite E, cov_app, (cov_cons p'). specialize (Hdrop t).
+      pose proof (before_disjoint xi xs p' t HX Bp). tauto.
+Qed.
+
+Lemma id_in_range_nested c o : valid c -> valid o -> rmin c <= o <= rmax c -> nested_in o c.
+Proof.
+  intros Vc Vo H. apply contains_nested; [assumption|assumption|].
+  apply contains_spec; [assumption|apply valid_u64; assumption|exact H].
+Qed.
+
+Lemma same_min_nested a b : valid a -> valid b -> rmin a = rmin b -> a <= b -> nested_in a b.
+Proof.
+  intros Va Vb E Hle. pose proof (cell_center _ Va). pose proof (cell_center _ Vb).
+  unfold nested_in. lia.
+Qed.
+
+Lemma isect_loop_spec : forall (fuel : nat) X Y, sorted_cu X -> sorted_cu Y ->
+  (length X + length Y <= fuel)%nat ->
+  let R := isect_loop fuel X Y in
+  Forall valid R /\ forall t, (cov R t <-> cov X t /\ cov Y t).
+Proof.
+  induction fuel as [|fuel IH]; intros X Y HX HY Hlen; cbn [isect_loop]; cbv zeta.
+  - split; [constructor|]. intros t. destruct X; [|cbn in Hlen; lia].
+    pose proof (cov_nil t). tauto.
+  - destruct X as [|xi xs]; [split; [constructor|]; intros t; pose proof (cov_nil t); tauto|].
+    destruct Y as [|yj ys]; [split; [constructor|]; intros t; pose proof (cov_nil t); tauto|].
+    assert (Vx : valid xi) by (destruct HX as [V _]; inversion V; assumption).
+    assert (Vy : valid yj) by (destruct HY as [V _]; inversion V; assumption).
+    pose proof (valid_range _ Vx) as (_ & Rx & _). pose proof (valid_range _ Vy) as (_ & Ry & _).
+    (* the two ways of emitting a cell *)
+    assert (EmitL : nested_in xi yj ->
+              Forall valid (xi :: isect_loop fuel xs (yj :: ys)) /\
+              forall t, (cov (xi :: isect_loop fuel xs (yj :: ys)) t <-> cov (xi :: xs) t /\ cov (yj :: ys) t)).
+    { intros N. destruct (IH xs (yj :: ys) (sorted_cu_tail _ _ HX) HY ltac:(cbn in *; lia)) as [V C].
+      split; [constructor; assumption|]. intros t. rewrite !(cov_cons xi), (C t), (cov_cons yj).
+      unfold covers, nested_in in *. split; [|tauto]. intros [H|H]; [|tauto]. split; [tauto|]. left. lia. }
+    assert (EmitR : nested_in yj xi ->
+              Forall valid (yj :: isect_loop fuel (xi :: xs) ys) /\
+              forall t, (cov (yj :: isect_loop fuel (xi :: xs) ys) t <-> cov (xi :: xs) t /\ cov (yj :: ys) t)).
+    { intros N. destruct (IH (xi :: xs) ys HX (sorted_cu_tail _ _ HY) ltac:(cbn in *; lia)) as [V C].
+      split; [constructor; assumption|]. intros t. rewrite !(cov_cons yj), (C t), (cov_cons xi).
+      unfold covers, nested_in in *. split; [|tauto]. intros [H|H]; [|tauto]. split; [|tauto]. left. lia. }
+    destruct (Z.ltb_spec (rmin yj) (rmin xi)) as [Hji|Hji].
+    + destruct (Z.leb_spec xi (rmax yj)) as [Hin|Hout].
+      * apply EmitL. apply id_in_range_nested; [assumption|assumption|lia].
+      * destruct (skip_to_spec xi xs yj ys HX HY Hji Hout) as (S' & L' & C').
+        destruct (IH (xi :: xs) _ HX S' ltac:(cbn in *; lia)) as [V C].
+        split; [exact V|]. intros t. rewrite (C t). symmetry. apply C'.
+    + destruct (Z.ltb_spec (rmin xi) (rmin yj)) as [Hij|Hij].
+      * destruct (Z.leb_spec yj (rmax xi)) as [Hin|Hout].
+        -- apply EmitR. apply id_in_range_nested; [assumption|assumption|lia].
+        -- destruct (skip_to_spec yj ys xi xs HY HX Hij Hout) as (S' & L' & C').
+           destruct (IH _ (yj :: ys) S' HY ltac:(cbn in *; lia)) as [V C].
+           split; [exact V|]. intros t. rewrite (C t). specialize (C' t). tauto.
+      * assert (E : rmin xi = rmin yj) by lia.
+        destruct (Z.ltb_spec xi yj).
+        -- apply EmitL. apply same_min_nested; try assumption. lia.
+        -- apply EmitR. apply same_min_nested; try assumption. lia.
+Qed.
+
+Theorem intersection_spec x y : sorted_cu x -> sorted_cu y ->
+  normal (cu_FromIntersection x y) /\
+  forall t, leaf t -> (cov (cu_FromIntersection x y) t <-> cov x t /\ cov y t).
+Proof.
+  intros Hx Hy. unfold cu_FromIntersection, cu_isect_raw.
+  destruct (isect_loop_spec (length x + length y) x y Hx Hy (le_n _)) as [V C].
+  destruct (normalize_spec _ V) as [N CN]. split; [exact N|].
+  intros t Lt. rewrite (CN t Lt). apply C.
+Qed.
